@@ -354,8 +354,13 @@ func checkC10(c *Ctx) {
 		}
 		if p%2 == 1 {
 			var pre []int
+			for i, k := range keys { // runs with an option of their own come before every other run
+				if k.first && k.noFuzz {
+					pre = append(pre, i)
+				}
+			}
 			for i, k := range keys {
-				if k.first {
+				if k.first && !k.noFuzz {
 					pre = append(pre, i)
 				}
 			}
